@@ -49,8 +49,12 @@ def scale(  # pylint: disable=dangerous-default-value  # always replaced by stat
     # Handle scaling
     if "scale" not in _state:
         if isinstance(scale, bool) and scale:
-            _state["scale"] = numpy.sqrt(
-                numpy.sum(data**2, axis=0) / (data.shape[0] - ddof)
+            # (squares are taken relative to the largest magnitude so that
+            # they neither overflow nor underflow for extreme data)
+            unit = numpy.max(numpy.abs(data), axis=0, initial=0.0)
+            unit = numpy.where((unit > 0) & numpy.isfinite(unit), unit, 1.0)
+            _state["scale"] = unit * numpy.sqrt(
+                numpy.sum((data / unit) ** 2, axis=0) / (data.shape[0] - ddof)
             )
         elif not isinstance(scale, bool):
             _state["scale"] = numpy.array(scale)
